@@ -342,6 +342,29 @@ pub fn stress_sources() -> Vec<(String, String)> {
     v.push(("linked-structures".into(), "function cons(head, tail) -> object begin\n  let head = head;\n  let tail = tail;\n  function nth(k) -> if k == 0 then this.head else this.tail.nth(k - 1);\n  function length() -> if this.tail == null then 1 else 1 + this.tail.length();\n  function sum(acc) -> if this.tail == null then acc + this.head else this.tail.sum(acc + this.head);\n  function last() -> if this.tail == null then this else this.tail.last();\n  function ==(other) -> false;\nend;\nlet list = cons(10, cons(20, cons(30, null)));\nprint(\"~ ~ ~ ~ ~ ~\\n\", list.nth(0), list.nth(1), list.nth(2), list.length(), list.sum(0), list.last().head);\nfunction node(key) -> object begin\n  let key = key; let left = null; let right = null;\n  function insert(k) -> if k < this.key then (if this.left == null then this.left <- node(k) else this.left.insert(k)) else (if this.right == null then this.right <- node(k) else this.right.insert(k));\n  function contains(k) -> if k == this.key then true else if k < this.key then (if this.left == null then false else this.left.contains(k)) else (if this.right == null then false else this.right.contains(k));\n  function total() -> this.key + (if this.left == null then 0 else this.left.total()) + (if this.right == null then 0 else this.right.total());\n  function depth() -> begin let l = if this.left == null then 0 else this.left.depth(); let r = if this.right == null then 0 else this.right.depth(); 1 + (if l > r then l else r) end;\n  function ==(other) -> false;\nend;\nlet tree = node(50);\nlet keys = array(7, 0);\nkeys[0] <- 30; keys[1] <- 70; keys[2] <- 20; keys[3] <- 40; keys[4] <- 60; keys[5] <- 80; keys[6] <- 45;\nlet i = 0;\nwhile i < 7 do begin tree.insert(keys[i]); i <- i + 1 end;\nprint(\"~ ~ ~ ~ ~\\n\", tree.contains(45), tree.contains(46), tree.total(), tree.depth(), tree.left.right.right.key);\n".into()));
     // a field name used before a global, a local, a parameter and a function of the same name are defined
     v.push(("fields-named-like-later-globals".into(), "function point(a, b) -> object begin let x = a; let y = b; end;\nlet x = 5;\nlet p = point(x, x + 1);\nx <- p.x + p.y;\nprint(\"~ ~\\n\", x, p);\nlet holder = object begin let later = 1; function later() -> 2; end;\nlet later = 3;\nfunction later() -> 4;\nbegin let y = 9; print(\"~ ~ ~ ~ ~ ~\\n\", y, p.y, later, later(), holder.later, holder.later()) end;\nfunction uses(y) -> y + p.y;\nprint(\"~\\n\", uses(100));\n".into()));
+    // operand stack and frames growing past powers of two in the middle of argument lists
+    let mut e = String::from("0");
+    for i in 0..150 {
+        e = format!("f3({}, {}, {})", i % 7, if i % 5 == 0 { "array(2, keep)[1].v" } else { "2" }, e);
+    }
+    let mut w = String::from("0");
+    for i in 0..60 {
+        let args: Vec<String> = (0..12).map(|a| if a == 6 { w.clone() } else { ((a + i) % 10).to_string() }).collect();
+        w = format!("f12({})", args.join(", "));
+    }
+    let params: Vec<String> = (0..12).map(|a| format!("p{}", a)).collect();
+    v.push((
+        "deep-argument-nesting".into(),
+        format!(
+            "let keep = object begin let v = 3; end;\nfunction f3(a, b, c) -> a + b + c;\nfunction f12({}) -> p0 + p5 * 2 + p6 + p11 * 3;\nprint(\"~\\n\", {});\nprint(\"~\\n\", {});\nprint(\"~\\n\", keep);\n",
+            params.join(", "),
+            e,
+            w
+        ),
+    ));
+    // references and values: mutation through three containers, equal-looking arrays and objects that are distinct, an array that is
+    // its own element's element, a parent changed after the child was made, integers equal to heap positions
+    v.push(("aliasing-through-containers".into(), "let inner = array(2, 0);\nlet mid = object begin let slot = inner; end;\nlet outer = array(2, mid);\nlet alias = outer[1].slot;\nalias[1] <- 7;\nprint(\"~ ~ ~\\n\", inner, mid, outer);\nlet a = array(2, 0); let b = array(2, 0); a[0] <- 1; print(\"~ ~\\n\", a, b);\nlet rows = array(2, array(2, 0)); rows[0][0] <- 5; print(\"~\\n\", rows);\nlet same = array(2, inner); same[0][0] <- 9; print(\"~ ~\\n\", same, inner);\nlet self = array(2, null); let holder = array(1, self); self[0] <- holder; print(\"~\\n\", self[0][0][0][0][1]);\nlet base = object begin let f = 1; function get() -> this.f; end;\nlet child = object extends base begin end;\nbase.f <- 2; print(\"~ ~\\n\", child.get(), child);\nlet i1 = 1; let i2 = i1; i2 <- 5; print(\"~ ~\\n\", i1, i2);\nfunction mutate(arr, obj, n) -> begin arr[0] <- 100; obj.f <- 200; n <- 300; n end;\nlet n0 = 3; print(\"~ ~ ~ ~\\n\", mutate(inner, base, n0), inner, base, n0);\nlet e1 = object begin end; let e2 = object begin end; let es = array(2, object begin let k = 0; end); es[0].k <- 1; print(\"~ ~ ~\\n\", e1, e2, es);\nlet t = true; let t2 = t; let nn = null; print(\"~ ~ ~ ~ ~\\n\", t, t2, nn, 0, false);\nlet small = array(3, 0); small[0] <- 0; small[1] <- 1; small[2] <- 2;\nlet objs = array(3, object begin let id = 0; end);\nobjs[0].id <- 2; objs[1].id <- 1; objs[2].id <- 0;\nprint(\"~ ~ ~ ~\\n\", small, objs, small[objs[0].id], objs[small[2]].id);\n".into()));
     // degenerate programs
     v.push(("empty-program".into(), "".into()));
     v.push(("only-comments".into(), "// nothing\n/* at all */\n".into()));
